@@ -127,6 +127,13 @@ _public_ int m_mod_set_batch_timeout(m_mod_t *mod, uint64_t timeout_ns) {
         }
         const int ret = m_mod_src_register_tmr(mod, &mod->batch.timer, M_SRC_INTERNAL | M_SRC_PRIO_HIGH, &mod->batch);
         mod->tb.tokens = tokens;
+        if (ret != 0) {
+            /* No timer, no timed batching: events must not be held back for a timeout that will never expire */
+            mod->batch.timer.ns = 0;
+            if (mod->batch.len == SIZE_MAX) {
+                mod->batch.len = 0;
+            }
+        }
         return ret;
     }
     mod->tb.tokens = tokens;
